@@ -82,10 +82,7 @@ def run(ctx):
                        "and one rejected payment transaction; distinct by full action list")
     if cov["tx_ok"] < 20 or cov["relays_acc"] < 25 or dup < 10 or cov["hard"] < 3 or cov["soft"] < 10 or cov["expired_mem"] < 3:
         raise vlib.Infra("vacuous coverage: %s" % cov)
-    variant, ra, rf = _pay.conf(ctx, tpath, "c03_conf")
-    ctx.cov["conforms_to"] = variant
-    if variant is None:
-        ctx.drift.append("real chain is not a behaviour of Payments.tla: as-found transcription accepted %s lines, repaired %s of %d" % (ra, rf, len(rows)))
+    _pay.note_conf(ctx, tpath, "c03_conf", len(rows))
     ctx.assumptions += _pay.ASSUMPTIONS
 
 
